@@ -1161,6 +1161,427 @@ Proof.
     unfold gnth. cbn [nth]. unfold self_centred. rewrite vsum_scale, centred_vsum by exact Hne. rewrite !v3scale_zero_r. reflexivity.
 Qed.
 
+(* ------------------------------------------------------------------ a small calculus of vector-valued curves *)
+Definition vderive (f : R -> V3) (t0 : R) (df : V3) : Prop :=
+  forall k, is_derive (fun t => vget k (f t)) t0 (vget k df).
+
+Lemma vderive_line (p e : V3) t0 : vderive (fun t => v3add Rops p (v3scale Rops t e)) t0 e.
+Proof.
+  intros k. apply (is_derive_ext (fun t => vget k p + t * vget k e)).
+  - intros t. rewrite vget_add, vget_scale. reflexivity.
+  - auto_derive; [exact I|ring].
+Qed.
+Lemma vderive_const (p : V3) t0 : vderive (fun _ => p) t0 (vzero Rops).
+Proof. intros k. rewrite vget_zero. apply @is_derive_const. Qed.
+Lemma vderive_add f g t0 df dg : vderive f t0 df -> vderive g t0 dg ->
+  vderive (fun t => v3add Rops (f t) (g t)) t0 (v3add Rops df dg).
+Proof.
+  intros Hf Hg k. apply (is_derive_ext (fun t => vget k (f t) + vget k (g t))).
+  - intros t. rewrite vget_add. reflexivity.
+  - rewrite vget_add. apply @is_derive_plus; [apply Hf|apply Hg].
+Qed.
+Lemma vderive_sub f g t0 df dg : vderive f t0 df -> vderive g t0 dg ->
+  vderive (fun t => v3sub Rops (f t) (g t)) t0 (v3sub Rops df dg).
+Proof.
+  intros Hf Hg k. apply (is_derive_ext (fun t => vget k (f t) - vget k (g t))).
+  - intros t. rewrite vget_sub. reflexivity.
+  - rewrite vget_sub. apply @is_derive_minus; [apply Hf|apply Hg].
+Qed.
+Lemma vderive_smul (s : R -> R) f t0 ds df : is_derive s t0 ds -> vderive f t0 df ->
+  vderive (fun t => v3scale Rops (s t) (f t)) t0 (v3add Rops (v3scale Rops ds (f t0)) (v3scale Rops (s t0) df)).
+Proof.
+  intros Hs Hf k. apply (is_derive_ext (fun t => s t * vget k (f t))).
+  - intros t. rewrite vget_scale. reflexivity.
+  - rewrite vget_add, !vget_scale. apply Derive.is_derive_mult; [exact Hs|apply Hf].
+Qed.
+Lemma vderive_cscale c f t0 df : vderive f t0 df -> vderive (fun t => v3scale Rops c (f t)) t0 (v3scale Rops c df).
+Proof.
+  intros Hf k. apply (is_derive_ext (fun t => c * vget k (f t))).
+  - intros t. rewrite vget_scale. reflexivity.
+  - rewrite vget_scale. apply is_derive_scal. apply Hf.
+Qed.
+Lemma vderive_ext f g t0 df : (forall t, f t = g t) -> vderive f t0 df -> vderive g t0 df.
+Proof. intros E Hf k. apply (is_derive_ext (fun t => vget k (f t))); [intros t; rewrite E; reflexivity|apply Hf]. Qed.
+
+Lemma derive_dot f g t0 df dg : vderive f t0 df -> vderive g t0 dg ->
+  is_derive (fun t => v3dot Rops (f t) (g t)) t0 (v3dot Rops df (g t0) + v3dot Rops (f t0) dg).
+Proof.
+  intros Hf Hg.
+  apply (is_derive_ext (fun t => vget AX (f t) * vget AX (g t) + vget AY (f t) * vget AY (g t) + vget AZ (f t) * vget AZ (g t))).
+  - intros t. rewrite v3dot_get. reflexivity.
+  - replace (v3dot Rops df (g t0) + v3dot Rops (f t0) dg)
+      with ((vget AX df * vget AX (g t0) + vget AX (f t0) * vget AX dg) + (vget AY df * vget AY (g t0) + vget AY (f t0) * vget AY dg)
+            + (vget AZ df * vget AZ (g t0) + vget AZ (f t0) * vget AZ dg)) by (rewrite !v3dot_get; ring).
+    apply @is_derive_plus; [apply @is_derive_plus|].
+    + apply Derive.is_derive_mult; [apply Hf|apply Hg].
+    + apply Derive.is_derive_mult; [apply Hf|apply Hg].
+    + apply Derive.is_derive_mult; [apply Hf|apply Hg].
+Qed.
+
+Lemma derive_norm f t0 df : vderive f t0 df -> v3norm2 Rops (f t0) <> 0 ->
+  is_derive (fun t => vnorm Rops (f t)) t0 (v3dot Rops (f t0) df / vnorm Rops (f t0)).
+Proof.
+  intros Hf Hne. pose proof (norm2_pos _ Hne) as Hpos.
+  unfold vnorm, v3norm2 in *. cbn [nsqrt Rops].
+  evar_last.
+  - apply (is_derive_sqrt (fun t => v3dot Rops (f t) (f t)) t0); [apply (derive_dot f f t0 df df Hf Hf)|exact Hpos].
+  - assert (Hs : sqrt (v3dot Rops (f t0) (f t0)) <> 0) by (apply Rgt_not_eq, sqrt_lt_R0; exact Hpos).
+    rewrite (v3dot_get df (f t0)), (v3dot_get (f t0) df). field. exact Hs.
+Qed.
+
+Lemma vunit_eq (v : V3) : v3norm2 Rops v <> 0 -> vunit Rops v = vdiv Rops v (vnorm Rops v).
+Proof.
+  intros Hne. pose proof (norm2_pos _ Hne) as Hpos. unfold vunit, vnorm. cbn [nltb nsqrt Rops]. unfold zero. cbn [n0 Rops].
+  replace (Rltb 0 (sqrt (v3norm2 Rops v))) with true by (symmetry; apply Rltb_true, sqrt_lt_R0; exact Hpos). reflexivity.
+Qed.
+
+Lemma norm2_loc f t0 df : vderive f t0 df -> v3norm2 Rops (f t0) <> 0 -> locally t0 (fun t => v3norm2 Rops (f t) <> 0).
+Proof.
+  intros Hf Hne. unfold v3norm2 in *.
+  apply (locally_nonzero (fun t => v3dot Rops (f t) (f t)) t0 _ (derive_dot f f t0 df df Hf Hf) Hne).
+Qed.
+
+(* the unit vector along a curve: a' = (f' - (a.f') a)/|f| *)
+Lemma vderive_unit f t0 df : vderive f t0 df -> v3norm2 Rops (f t0) <> 0 ->
+  vderive (fun t => vunit Rops (f t)) t0
+          (vdiv Rops (v3sub Rops df (v3scale Rops (v3dot Rops (vunit Rops (f t0)) df) (vunit Rops (f t0)))) (vnorm Rops (f t0))).
+Proof.
+  intros Hf Hne k. pose proof (norm2_pos _ Hne) as Hpos.
+  assert (Hs : vnorm Rops (f t0) <> 0) by (unfold vnorm; cbn [nsqrt Rops]; apply Rgt_not_eq, sqrt_lt_R0; exact Hpos).
+  apply (is_derive_ext_loc (fun t => vget k (f t) / vnorm Rops (f t))).
+  - generalize (norm2_loc f t0 df Hf Hne). apply filter_imp. intros t Ht. rewrite vunit_eq by exact Ht. rewrite vget_div. reflexivity.
+  - evar_last.
+    + apply (is_derive_div (fun t => vget k (f t)) (fun t => vnorm Rops (f t))); [apply Hf|apply (derive_norm f t0 df Hf Hne)|exact Hs].
+    + rewrite vunit_eq by exact Hne. rewrite vget_div, vget_sub, vget_scale, vget_div.
+      rewrite (v3dot_get (vdiv Rops (f t0) (vnorm Rops (f t0))) df), !vget_div, (v3dot_get (f t0) df).
+      field. exact Hs.
+Qed.
+
+(* ------------------------------------------------------------------ more kernels *)
+Lemma line_zero (p e : V3) : v3add Rops p (v3scale Rops 0 e) = p.
+Proof. apply v3_ext. intros j. rewrite vget_add, vget_scale. ring. Qed.
+
+Lemma com_curve (gs : list GD) n Ds i t : gds_wf gs n -> (i < n)%nat ->
+  gd_com Rops (gnth (move_gs gs t Ds) i) = v3add Rops (gd_com Rops (gnth gs i)) (v3scale Rops t (comdir (gnth gs i) (nth i Ds []))).
+Proof. intros Hwf Hi. rewrite gnth_move. apply gd_com_move. apply (gds_wf_nth gs n i Hwf Hi). Qed.
+
+Lemma shape_3 (g0 g1 g2 : GD) (gs : list GD) (a b c : list V3) : gs = [g0; g1; g2] ->
+  length a = length (gd_atoms g0) -> length b = length (gd_atoms g1) -> length c = length (gd_atoms g2) -> shape_ok [a; b; c] gs.
+Proof. intros -> H1 H2 H3. cbn [shape_ok]. auto. Qed.
+
+(* ---- inertiaZ ---- *)
+Lemma sumsqz_dir (ax : V3) (l D : list V3) :
+  is_derive (fun t => tsum Rops (map (fun p => v3dot Rops p ax * v3dot Rops p ax) (move_pos l t D))) 0
+            (dot_list (map (fun p => v3scale Rops (2 * v3dot Rops p ax) ax) l) D).
+Proof.
+  revert D. induction l as [|p l IH]; intros D.
+  - cbn [move_pos map dot_list]. apply @is_derive_const.
+  - destruct D as [|d D'].
+    + cbn [move_pos map dot_list]. apply @is_derive_const.
+    + cbn [move_pos map dot_list].
+      apply (is_derive_ext (fun t => v3dot Rops (v3add Rops p (v3scale Rops t d)) ax * v3dot Rops (v3add Rops p (v3scale Rops t d)) ax
+                                     + tsum Rops (map (fun p0 => v3dot Rops p0 ax * v3dot Rops p0 ax) (move_pos l t D')))); [reflexivity|].
+      apply @is_derive_plus; [|apply IH].
+      destruct p as [[x y] z], d as [[dx dy] dz], ax as [[a b] c]. unfold v3dot, v3add, v3scale. cbn [nadd nmul Rops].
+      auto_derive; [exact I|ring].
+Qed.
+
+Lemma dir_correct_inertia_z ax (gs : list GD) : length gs = 1%nat -> dir_correct (k_inertia_z Rops ax) gs.
+Proof.
+  intros Hl. split.
+  - unfold k_inertia_z. cbn [snd]. pose proof (gds_1 gs Hl) as E. set (g0 := gnth gs 0) in *. rewrite E. cbn [shape_ok]. split; [|exact I].
+    unfold gd_pos. rewrite !map_length. reflexivity.
+  - intros Ds. unfold k_inertia_z. cbn [fst snd]. rewrite dot_lists_1.
+    apply (is_derive_ext (fun t => tsum Rops (map (fun p => v3dot Rops p ax * v3dot Rops p ax) (move_pos (gd_pos (gnth gs 0)) t (nth 0 Ds []))))).
+    + intros t. rewrite gnth_move, gd_pos_move. reflexivity.
+    + unfold tw, ofnat. cbn [nofZ nmul Rops Z.of_nat Pos.of_succ_nat Pos.succ]. apply sumsqz_dir.
+Qed.
+
+(* ---- distanceZ with a two-point axis (ref, ref2) ---- *)
+Lemma z2_algebra (cm c1 c2 Em E1 E2 : V3) : v3norm2 Rops (v3sub Rops c2 c1) <> 0 ->
+  let u := v3sub Rops c2 c1 in
+  let w := v3sub Rops cm (v3scale Rops (1 / 2) (v3add Rops c1 c2)) in
+  let L := vnorm Rops u in
+  let a := vunit Rops u in
+  let x := v3dot Rops a w in
+  v3dot Rops (vdiv Rops (v3sub Rops (v3sub Rops E2 E1) (v3scale Rops (v3dot Rops a (v3sub Rops E2 E1)) a)) L) w
+  + v3dot Rops a (v3sub Rops Em (v3scale Rops (1 / 2) (v3add Rops E1 E2)))
+  = v3dot Rops a Em
+    + v3dot Rops (v3scale Rops (1 / L) (v3add Rops (v3sub Rops c1 cm) (v3scale Rops x a))) E1
+    + v3dot Rops (v3scale Rops (1 / L) (v3sub Rops (v3sub Rops cm c2) (v3scale Rops x a))) E2.
+Proof.
+  intros Hne u w L a x. unfold x, a. rewrite (vunit_eq u Hne). fold L.
+  assert (HL : L <> 0).
+  { unfold L, vnorm. cbn [nsqrt Rops]. apply Rgt_not_eq, sqrt_lt_R0, norm2_pos. exact Hne. }
+  clearbody L. unfold w, u. revert HL. clear x a w u Hne.
+  destruct cm as [[mx my] mz], c1 as [[x1 y1] z1], c2 as [[x2 y2] z2], Em as [[emx emy] emz], E1 as [[e1x e1y] e1z], E2 as [[e2x e2y] e2z].
+  unfold v3dot, v3sub, v3add, v3scale, vdiv. cbn [nadd nsub nmul ndiv Rops]. intros HL. field. exact HL.
+Qed.
+
+Lemma dir_correct_distance_z2 pbc cell (gs : list GD) : gds_wf gs 3 -> plain pbc cell ->
+  v3norm2 Rops (v3sub Rops (gd_com Rops (gnth gs 2)) (gd_com Rops (gnth gs 1))) <> 0 ->
+  dir_correct (k_distance_z2 Rops pbc cell) gs.
+Proof.
+  intros Hwf Hpl Hne.
+  pose proof (gds_wf_nth gs 3 0 Hwf ltac:(lia)) as W0. pose proof (gds_wf_nth gs 3 1 Hwf ltac:(lia)) as W1.
+  pose proof (gds_wf_nth gs 3 2 Hwf ltac:(lia)) as W2.
+  split.
+  - unfold k_distance_z2. cbv zeta. cbn [snd]. apply (shape_3 (gnth gs 0) (gnth gs 1) (gnth gs 2)); [apply gds_3; exact Hwf| | |]; apply wgrad_length.
+  - intros Ds. unfold k_distance_z2. cbv zeta. cbn [fst snd]. rewrite dot_lists_3, !wgrad_dot by assumption. rewrite !pdist_plain by exact Hpl.
+    set (cm := gd_com Rops (gnth gs 0)) in *. set (c1 := gd_com Rops (gnth gs 1)) in *. set (c2 := gd_com Rops (gnth gs 2)) in *.
+    set (Em := comdir (gnth gs 0) (nth 0 Ds [])). set (E1 := comdir (gnth gs 1) (nth 1 Ds [])). set (E2 := comdir (gnth gs 2) (nth 2 Ds [])).
+    apply (is_derive_ext (fun t => v3dot Rops (vunit Rops (v3sub Rops (v3add Rops c2 (v3scale Rops t E2)) (v3add Rops c1 (v3scale Rops t E1))))
+                                     (v3sub Rops (v3add Rops cm (v3scale Rops t Em))
+                                            (v3scale Rops (hf Rops) (v3add Rops (v3add Rops c1 (v3scale Rops t E1)) (v3add Rops c2 (v3scale Rops t E2))))))).
+    + intros t. rewrite !(com_curve gs 3 Ds _ t Hwf) by lia. rewrite !pdist_plain by exact Hpl. reflexivity.
+    + evar_last.
+      * apply (derive_dot (fun t => vunit Rops (v3sub Rops (v3add Rops c2 (v3scale Rops t E2)) (v3add Rops c1 (v3scale Rops t E1))))
+                          (fun t => v3sub Rops (v3add Rops cm (v3scale Rops t Em))
+                                          (v3scale Rops (hf Rops) (v3add Rops (v3add Rops c1 (v3scale Rops t E1)) (v3add Rops c2 (v3scale Rops t E2)))))).
+        -- apply (vderive_unit (fun t => v3sub Rops (v3add Rops c2 (v3scale Rops t E2)) (v3add Rops c1 (v3scale Rops t E1))) 0 (v3sub Rops E2 E1)).
+           ++ apply vderive_sub; apply vderive_line.
+           ++ cbv beta. rewrite !line_zero. exact Hne.
+        -- apply (vderive_sub _ _ 0 Em (v3scale Rops (hf Rops) (v3add Rops E1 E2))); [apply vderive_line|].
+           apply vderive_cscale. apply vderive_add; apply vderive_line.
+      * cbv beta. rewrite !line_zero. change (hf Rops) with (1 / 2). apply (z2_algebra cm c1 c2 Em E1 E2 Hne).
+Qed.
+
+(* ---- angle ---- *)
+Lemma acos_derive x : -1 < x < 1 -> is_derive acos x (-1 / sqrt (1 - x * x)).
+Proof.
+  intros Hx. apply is_derive_Reals. fold (Rsqr x).
+  apply (derive_pt_eq_1 acos x _ (derivable_pt_acos x Hx)). apply derive_pt_acos.
+Qed.
+
+Definition cosang (r1 r3 : V3) : R := v3dot Rops r1 r3 / (vnorm Rops r1 * vnorm Rops r3).
+
+Lemma cosang_derive f g t0 df dg : vderive f t0 df -> vderive g t0 dg ->
+  v3norm2 Rops (f t0) <> 0 -> v3norm2 Rops (g t0) <> 0 ->
+  is_derive (fun t => cosang (f t) (g t)) t0
+    (((v3dot Rops df (g t0) + v3dot Rops (f t0) dg) * (vnorm Rops (f t0) * vnorm Rops (g t0))
+      - v3dot Rops (f t0) (g t0) * (v3dot Rops (f t0) df / vnorm Rops (f t0) * vnorm Rops (g t0)
+                                    + vnorm Rops (f t0) * (v3dot Rops (g t0) dg / vnorm Rops (g t0))))
+     / (vnorm Rops (f t0) * vnorm Rops (g t0)) ^ 2).
+Proof.
+  intros Hf Hg Hnf Hng. unfold cosang.
+  assert (Hlf : vnorm Rops (f t0) <> 0) by (unfold vnorm; cbn [nsqrt Rops]; apply Rgt_not_eq, sqrt_lt_R0, norm2_pos; exact Hnf).
+  assert (Hlg : vnorm Rops (g t0) <> 0) by (unfold vnorm; cbn [nsqrt Rops]; apply Rgt_not_eq, sqrt_lt_R0, norm2_pos; exact Hng).
+  apply (is_derive_div (fun t => v3dot Rops (f t) (g t)) (fun t => vnorm Rops (f t) * vnorm Rops (g t))).
+  - apply derive_dot; assumption.
+  - apply Derive.is_derive_mult; apply derive_norm; assumption.
+  - apply Rmult_integral_contrapositive. split; assumption.
+Qed.
+
+Lemma angle_algebra (r1 r3 e1 e3 : V3) (l1 l3 s K : R) : l1 <> 0 -> l3 <> 0 -> s <> 0 ->
+  let c := v3dot Rops r1 r3 / (l1 * l3) in
+  K * (-1 / s * (((v3dot Rops e1 r3 + v3dot Rops r1 e3) * (l1 * l3) - v3dot Rops r1 r3 * (v3dot Rops r1 e1 / l1 * l3 + l1 * (v3dot Rops r3 e3 / l3))) / (l1 * l3) ^ 2))
+  = v3dot Rops (v3scale Rops (K * (-1 / s) * (1 / l1)) (v3add Rops (vdiv Rops r3 l3) (vdiv Rops (v3scale Rops (-1 * c) r1) l1))) e1
+    + v3dot Rops (v3scale Rops (K * (-1 / s) * (1 / l3)) (v3add Rops (vdiv Rops r1 l1) (vdiv Rops (v3scale Rops (-1 * c) r3) l3))) e3.
+Proof.
+  intros H1 H3 Hs c. unfold c. clear c.
+  destruct r1 as [[x1 y1] z1], r3 as [[x3 y3] z3], e1 as [[a1 b1] c1], e3 as [[a3 b3] c3].
+  unfold v3dot, v3add, v3scale, vdiv. cbn [nadd nsub nmul ndiv Rops]. field. repeat split; assumption.
+Qed.
+
+Lemma dir_correct_angle pbc cell (gs : list GD) : gds_wf gs 3 -> plain pbc cell ->
+  let r21 := v3sub Rops (gd_com Rops (gnth gs 0)) (gd_com Rops (gnth gs 1)) in
+  let r23 := v3sub Rops (gd_com Rops (gnth gs 2)) (gd_com Rops (gnth gs 1)) in
+  v3norm2 Rops r21 <> 0 -> v3norm2 Rops r23 <> 0 -> -1 < cosang r21 r23 < 1 ->
+  dir_correct (k_angle Rops PI pbc cell) gs.
+Proof.
+  intros Hwf Hpl r21 r23 Hn1 Hn3 Hc.
+  pose proof (gds_wf_nth gs 3 0 Hwf ltac:(lia)) as W0. pose proof (gds_wf_nth gs 3 1 Hwf ltac:(lia)) as W1.
+  pose proof (gds_wf_nth gs 3 2 Hwf ltac:(lia)) as W2.
+  split.
+  - unfold k_angle. cbv zeta. cbn [snd]. apply (shape_3 (gnth gs 0) (gnth gs 1) (gnth gs 2)); [apply gds_3; exact Hwf| | |]; apply wgrad_length.
+  - intros Ds. unfold k_angle. cbv zeta. cbn [fst snd]. rewrite dot_lists_3, !wgrad_dot by assumption. rewrite !pdist_plain by exact Hpl.
+    fold r21 r23.
+    set (c1 := gd_com Rops (gnth gs 0)) in *. set (c2 := gd_com Rops (gnth gs 1)) in *. set (c3 := gd_com Rops (gnth gs 2)) in *.
+    set (E1 := comdir (gnth gs 0) (nth 0 Ds [])). set (E2 := comdir (gnth gs 1) (nth 1 Ds [])). set (E3 := comdir (gnth gs 2) (nth 2 Ds [])).
+    set (R1 := fun t => v3sub Rops (v3add Rops c1 (v3scale Rops t E1)) (v3add Rops c2 (v3scale Rops t E2))).
+    set (R3 := fun t => v3sub Rops (v3add Rops c3 (v3scale Rops t E3)) (v3add Rops c2 (v3scale Rops t E2))).
+    assert (HR1 : vderive R1 0 (v3sub Rops E1 E2)) by (apply vderive_sub; apply vderive_line).
+    assert (HR3 : vderive R3 0 (v3sub Rops E3 E2)) by (apply vderive_sub; apply vderive_line).
+    assert (E10 : R1 0 = r21) by (unfold R1, r21; rewrite !line_zero; reflexivity).
+    assert (E30 : R3 0 = r23) by (unfold R3, r23; rewrite !line_zero; reflexivity).
+    apply (is_derive_ext (fun t => rad2deg Rops PI * acos (cosang (R1 t) (R3 t)))).
+    + intros t. rewrite !(com_curve gs 3 Ds _ t Hwf) by lia. rewrite !pdist_plain by exact Hpl. reflexivity.
+    + assert (Hs : sqrt (1 - cosang r21 r23 * cosang r21 r23) <> 0).
+      { apply Rgt_not_eq, sqrt_lt_R0. destruct Hc as [Hc1 Hc2]. nra. }
+      assert (Hl1 : vnorm Rops r21 <> 0) by (unfold vnorm; cbn [nsqrt Rops]; apply Rgt_not_eq, sqrt_lt_R0, norm2_pos; exact Hn1).
+      assert (Hl3 : vnorm Rops r23 <> 0) by (unfold vnorm; cbn [nsqrt Rops]; apply Rgt_not_eq, sqrt_lt_R0, norm2_pos; exact Hn3).
+      evar_last.
+      * apply is_derive_scal. apply (is_derive_comp acos (fun t => cosang (R1 t) (R3 t))).
+        -- rewrite E10, E30. apply acos_derive. exact Hc.
+        -- apply (cosang_derive R1 R3 0 _ _ HR1 HR3); [rewrite E10; exact Hn1|rewrite E30; exact Hn3].
+      * rewrite E10, E30.
+        lazymatch goal with |- context [scal ?a ?b] => change (scal a b) with (Rmult a b) end.
+        pose proof (angle_algebra r21 r23 (v3sub Rops E1 E2) (v3sub Rops E3 E2) (vnorm Rops r21) (vnorm Rops r23)
+                                  (sqrt (1 - cosang r21 r23 * cosang r21 r23)) (rad2deg Rops PI) Hl1 Hl3 Hs) as A.
+        cbv zeta in A. fold (cosang r21 r23) in A.
+        unfold mone, one. cbn [nneg n1 nmul ndiv nsub nsqrt Rops]. fold (cosang r21 r23).
+        replace (- (1)) with (-1) by ring.
+        set (G1 := v3scale Rops (rad2deg Rops PI * (-1 / sqrt (1 - cosang r21 r23 * cosang r21 r23)) * (1 / vnorm Rops r21))
+                            (v3add Rops (vdiv Rops r23 (vnorm Rops r23)) (vdiv Rops (v3scale Rops (-1 * cosang r21 r23) r21) (vnorm Rops r21)))) in *.
+        set (G3 := v3scale Rops (rad2deg Rops PI * (-1 / sqrt (1 - cosang r21 r23 * cosang r21 r23)) * (1 / vnorm Rops r23))
+                            (v3add Rops (vdiv Rops r21 (vnorm Rops r21)) (vdiv Rops (v3scale Rops (-1 * cosang r21 r23) r23) (vnorm Rops r23)))) in *.
+        transitivity (v3dot Rops G1 (v3sub Rops E1 E2) + v3dot Rops G3 (v3sub Rops E3 E2)).
+        -- rewrite <- A. rewrite !v3dot_sub_r. ring.
+        -- rewrite !v3dot_sub_r, v3dot_scale_l. rewrite (v3dot_get (v3add Rops G1 G3) E2), !vget_add, (v3dot_get G1 E2), (v3dot_get G3 E2). ring.
+Qed.
+
+(* ---- distanceXY with a two-point axis ---- *)
+Lemma vunit_norm2 (u : V3) : v3norm2 Rops u <> 0 -> v3norm2 Rops (vunit Rops u) = 1.
+Proof.
+  intros Hne. rewrite (vunit_eq u Hne). pose proof (norm2_pos u Hne) as Hpos.
+  assert (HL : vnorm Rops u * vnorm Rops u = v3norm2 Rops u) by (unfold vnorm; cbn [nsqrt Rops]; apply sqrt_sqrt; lra).
+  assert (HL0 : vnorm Rops u <> 0) by (unfold vnorm; cbn [nsqrt Rops]; apply Rgt_not_eq, sqrt_lt_R0; exact Hpos).
+  set (L := vnorm Rops u) in *. clearbody L.
+  destruct u as [[x y] z]. unfold v3norm2, v3dot, vdiv in *. cbn [nadd nmul ndiv Rops] in *.
+  replace (x / L * (x / L) + y / L * (y / L) + z / L * (z / L)) with ((x * x + y * y + z * z) / (L * L)) by (field; exact HL0).
+  rewrite HL. field. lra.
+Qed.
+
+Lemma xy2_algebra (D a Em E1 E2 : V3) (L x : R) : L <> 0 -> x <> 0 -> v3dot Rops (vperp D a) a = 0 ->
+  let D' := v3sub Rops Em E1 in
+  let up := v3sub Rops E2 E1 in
+  let a' := vdiv Rops (v3sub Rops up (v3scale Rops (v3dot Rops a up) a)) L in
+  v3dot Rops (vperp D a) (v3sub Rops D' (v3add Rops (v3scale Rops (v3dot Rops D' a + v3dot Rops D a') a) (v3scale Rops (v3dot Rops D a) a'))) / x
+  = v3dot Rops (v3scale Rops (1 * (1 / x)) (vperp D a)) Em
+    + v3dot Rops (v3scale Rops ((v3dot Rops D a / L - 1) * (1 / x)) (vperp D a)) E1
+    + v3dot Rops (v3scale Rops (- (v3dot Rops D a / L) * (1 / x)) (vperp D a)) E2.
+Proof.
+  intros HL Hx Ho D' up a'.
+  transitivity (v3dot Rops (v3scale Rops (1 * (1 / x)) (vperp D a)) Em
+                + v3dot Rops (v3scale Rops ((v3dot Rops D a / L - 1) * (1 / x)) (vperp D a)) E1
+                + v3dot Rops (v3scale Rops (- (v3dot Rops D a / L) * (1 / x)) (vperp D a)) E2
+                + v3dot Rops (vperp D a) a * (- (v3dot Rops D' a + v3dot Rops D up / L - 2 * (v3dot Rops a up * v3dot Rops D a) / L) / x)).
+  - unfold a', up, D', vperp.
+    destruct D as [[dx dy] dz], a as [[ax ay] az], Em as [[emx emy] emz], E1 as [[e1x e1y] e1z], E2 as [[e2x e2y] e2z].
+    unfold v3dot, v3sub, v3add, v3scale, vdiv. cbn [nadd nsub nmul ndiv Rops]. field. split; assumption.
+  - rewrite Ho. ring.
+Qed.
+
+Lemma dir_correct_distance_xy2 pbc cell (gs : list GD) : gds_wf gs 3 -> plain pbc cell ->
+  let d := v3sub Rops (gd_com Rops (gnth gs 0)) (gd_com Rops (gnth gs 1)) in
+  let u := v3sub Rops (gd_com Rops (gnth gs 2)) (gd_com Rops (gnth gs 1)) in
+  v3norm2 Rops u <> 0 -> v3norm2 Rops (vperp d (vunit Rops u)) <> 0 ->
+  dir_correct (k_distance_xy2 Rops pbc cell) gs.
+Proof.
+  intros Hwf Hpl d u Hnu Hnv.
+  pose proof (gds_wf_nth gs 3 0 Hwf ltac:(lia)) as W0. pose proof (gds_wf_nth gs 3 1 Hwf ltac:(lia)) as W1.
+  pose proof (gds_wf_nth gs 3 2 Hwf ltac:(lia)) as W2.
+  set (cm := gd_com Rops (gnth gs 0)) in *. set (c1 := gd_com Rops (gnth gs 1)) in *. set (c2 := gd_com Rops (gnth gs 2)) in *.
+  set (a := vunit Rops u) in *. set (v := vperp d a) in *.
+  assert (Hx : vnorm Rops v <> 0) by (unfold vnorm; cbn [nsqrt Rops]; apply Rgt_not_eq, sqrt_lt_R0, norm2_pos; exact Hnv).
+  assert (HL : vnorm Rops u <> 0) by (unfold vnorm; cbn [nsqrt Rops]; apply Rgt_not_eq, sqrt_lt_R0, norm2_pos; exact Hnu).
+  assert (Ev : forall gs', fst (k_distance_xy2 Rops pbc cell gs') =
+           vnorm Rops (vperp (pdist Rops pbc cell (gd_com Rops (gnth gs' 1)) (gd_com Rops (gnth gs' 0)))
+                             (vunit Rops (pdist Rops pbc cell (gd_com Rops (gnth gs' 1)) (gd_com Rops (gnth gs' 2)))))).
+  { intros gs'. unfold k_distance_xy2. cbv zeta. unfold vperp. destruct (neqb Rops _ (zero Rops)); reflexivity. }
+  assert (Eg : snd (k_distance_xy2 Rops pbc cell gs) =
+           [wgrad Rops (gnth gs 0) (v3scale Rops (1 * (1 / vnorm Rops v)) v);
+            wgrad Rops (gnth gs 1) (v3scale Rops ((v3dot Rops d a / vnorm Rops u - 1) * (1 / vnorm Rops v)) v);
+            wgrad Rops (gnth gs 2) (v3scale Rops (- (v3dot Rops d a / vnorm Rops u) * (1 / vnorm Rops v)) v)]).
+  { unfold k_distance_xy2. cbv zeta. rewrite !pdist_plain by exact Hpl. fold cm c1 c2. fold d u. fold a. fold (vperp d a). fold v.
+    unfold vnorm at 1. cbn [neqb nsqrt Rops]. unfold zero. cbn [n0 Rops].
+    rewrite Reqb_false by (unfold vnorm in Hx; cbn [nsqrt Rops] in Hx; exact Hx). reflexivity. }
+  split.
+  - rewrite Eg. apply (shape_3 (gnth gs 0) (gnth gs 1) (gnth gs 2)); [apply gds_3; exact Hwf| | |]; apply wgrad_length.
+  - intros Ds. rewrite Eg, dot_lists_3, !wgrad_dot by assumption.
+    set (Em := comdir (gnth gs 0) (nth 0 Ds [])). set (E1 := comdir (gnth gs 1) (nth 1 Ds [])). set (E2 := comdir (gnth gs 2) (nth 2 Ds [])).
+    set (Dt := fun t => v3sub Rops (v3add Rops cm (v3scale Rops t Em)) (v3add Rops c1 (v3scale Rops t E1))).
+    set (Ut := fun t => v3sub Rops (v3add Rops c2 (v3scale Rops t E2)) (v3add Rops c1 (v3scale Rops t E1))).
+    assert (HD : vderive Dt 0 (v3sub Rops Em E1)) by (apply vderive_sub; apply vderive_line).
+    assert (HU : vderive Ut 0 (v3sub Rops E2 E1)) by (apply vderive_sub; apply vderive_line).
+    assert (ED0 : Dt 0 = d) by (unfold Dt, d; rewrite !line_zero; reflexivity).
+    assert (EU0 : Ut 0 = u) by (unfold Ut, u; rewrite !line_zero; reflexivity).
+    assert (Ha : vderive (fun t => vunit Rops (Ut t)) 0
+                         (vdiv Rops (v3sub Rops (v3sub Rops E2 E1) (v3scale Rops (v3dot Rops a (v3sub Rops E2 E1)) a)) (vnorm Rops u))).
+    { pose proof (vderive_unit Ut 0 (v3sub Rops E2 E1) HU) as P. rewrite EU0 in P. apply P. exact Hnu. }
+    apply (is_derive_ext (fun t => vnorm Rops (v3sub Rops (Dt t) (v3scale Rops (v3dot Rops (Dt t) (vunit Rops (Ut t))) (vunit Rops (Ut t)))))).
+    + intros t. rewrite Ev. rewrite !(com_curve gs 3 Ds _ t Hwf) by lia. rewrite !pdist_plain by exact Hpl. reflexivity.
+    + evar_last.
+      * apply (derive_norm (fun t => v3sub Rops (Dt t) (v3scale Rops (v3dot Rops (Dt t) (vunit Rops (Ut t))) (vunit Rops (Ut t)))) 0).
+        -- apply (vderive_sub Dt (fun t => v3scale Rops (v3dot Rops (Dt t) (vunit Rops (Ut t))) (vunit Rops (Ut t))) 0 (v3sub Rops Em E1)
+                   (v3add Rops (v3scale Rops (v3dot Rops (v3sub Rops Em E1) (vunit Rops (Ut 0))
+                                              + v3dot Rops (Dt 0) (vdiv Rops (v3sub Rops (v3sub Rops E2 E1) (v3scale Rops (v3dot Rops a (v3sub Rops E2 E1)) a)) (vnorm Rops u)))
+                                             (vunit Rops (Ut 0)))
+                               (v3scale Rops (v3dot Rops (Dt 0) (vunit Rops (Ut 0)))
+                                        (vdiv Rops (v3sub Rops (v3sub Rops E2 E1) (v3scale Rops (v3dot Rops a (v3sub Rops E2 E1)) a)) (vnorm Rops u)))) HD).
+           apply (vderive_smul (fun t => v3dot Rops (Dt t) (vunit Rops (Ut t))) (fun t => vunit Rops (Ut t)) 0); [|exact Ha].
+           apply (derive_dot Dt (fun t => vunit Rops (Ut t)) 0 _ _ HD Ha).
+        -- cbv beta. rewrite ED0, EU0. fold a. exact Hnv.
+      * cbv beta. rewrite ED0, EU0. fold a. fold (vperp d a). fold v.
+        apply (xy2_algebra d a Em E1 E2 (vnorm Rops u) (vnorm Rops v) HL Hx).
+        apply vperp_orth. apply vunit_norm2. exact Hnu.
+Qed.
+
+(* ------------------------------------------------------------------ more components as functions of the atomic coordinates *)
+Lemma grp_ok_3 (s : SYS) g1 g2 g3 : grp_ok s g1 -> grp_ok s g2 -> grp_ok s g3 ->
+  List.Forall (wf_group s) [g1; g2; g3] /\ gds_wf (map (gdata_of Rops s) [g1; g2; g3]) 3 /\ List.Forall fit_on [g1; g2; g3].
+Proof.
+  intros (W1 & M1 & F1) (W2 & M2 & F2) (W3 & M3 & F3). repeat split; auto.
+  cbn [map]. repeat constructor; apply gd_wf_of; assumption.
+Qed.
+
+Lemma cvc_grad_correct_distanceZ2 cell pbc co e gm g1 g2 (s : SYS) :
+  grp_ok s gm -> grp_ok s g1 -> grp_ok s g2 -> plain pbc cell ->
+  gd_com Rops (gdata_of Rops s g2) <> gd_com Rops (gdata_of Rops s g1) ->
+  cvc_grad_correct cell (mkCvc co e (KDistanceZ2 pbc) [gm; g1; g2]) s.
+Proof.
+  intros H0 H1 H2 Hpl Hne. destruct (grp_ok_3 s gm g1 g2 H0 H1 H2) as (HW & HG & HF).
+  apply group_layer; cbn [c_groups c_kind keval]; [exact HW| |apply fit_ok_on; exact HF].
+  apply dir_correct_distance_z2; [exact HG|exact Hpl|]. cbn [map]. unfold gnth. cbn [nth]. apply norm2_sub_ne. exact Hne.
+Qed.
+
+Lemma cvc_grad_correct_distanceXY2 cell pbc co e gm g1 g2 (s : SYS) :
+  grp_ok s gm -> grp_ok s g1 -> grp_ok s g2 -> plain pbc cell ->
+  gd_com Rops (gdata_of Rops s g2) <> gd_com Rops (gdata_of Rops s g1) ->
+  v3norm2 Rops (vperp (v3sub Rops (gd_com Rops (gdata_of Rops s gm)) (gd_com Rops (gdata_of Rops s g1)))
+                      (vunit Rops (v3sub Rops (gd_com Rops (gdata_of Rops s g2)) (gd_com Rops (gdata_of Rops s g1))))) <> 0 ->
+  cvc_grad_correct cell (mkCvc co e (KDistanceXY2 pbc) [gm; g1; g2]) s.
+Proof.
+  intros H0 H1 H2 Hpl Hne Hnv. destruct (grp_ok_3 s gm g1 g2 H0 H1 H2) as (HW & HG & HF).
+  apply group_layer; cbn [c_groups c_kind keval]; [exact HW| |apply fit_ok_on; exact HF].
+  apply dir_correct_distance_xy2; [exact HG|exact Hpl| |]; cbn [map]; unfold gnth; cbn [nth]; [apply norm2_sub_ne; exact Hne|exact Hnv].
+Qed.
+
+Lemma cvc_grad_correct_angle cell pbc co e g1 g2 g3 (s : SYS) :
+  grp_ok s g1 -> grp_ok s g2 -> grp_ok s g3 -> plain pbc cell ->
+  gd_com Rops (gdata_of Rops s g1) <> gd_com Rops (gdata_of Rops s g2) ->
+  gd_com Rops (gdata_of Rops s g3) <> gd_com Rops (gdata_of Rops s g2) ->
+  -1 < cosang (v3sub Rops (gd_com Rops (gdata_of Rops s g1)) (gd_com Rops (gdata_of Rops s g2)))
+              (v3sub Rops (gd_com Rops (gdata_of Rops s g3)) (gd_com Rops (gdata_of Rops s g2))) < 1 ->
+  cvc_grad_correct cell (mkCvc co e (KAngle pbc) [g1; g2; g3]) s.
+Proof.
+  intros H1 H2 H3 Hpl Hn1 Hn3 Hc. destruct (grp_ok_3 s g1 g2 g3 H1 H2 H3) as (HW & HG & HF).
+  apply group_layer; cbn [c_groups c_kind keval]; [exact HW| |apply fit_ok_on; exact HF].
+  apply dir_correct_angle; [exact HG|exact Hpl| | |]; cbn [map]; unfold gnth; cbn [nth];
+    [apply norm2_sub_ne; exact Hn1|apply norm2_sub_ne; exact Hn3|exact Hc].
+Qed.
+
+Lemma cvc_grad_correct_inertiaZ cell co e ax ids (s : SYS) :
+  ids_ok s ids -> ids <> [] ->
+  cvc_grad_correct cell (mkCvc co e (KInertiaZ ax) [self_centred ids]) s.
+Proof.
+  intros Hok Hne.
+  apply group_layer; cbn [c_groups c_kind keval].
+  - repeat constructor; cbn [fit_ids]; auto.
+  - apply dir_correct_inertia_z. reflexivity.
+  - unfold cvc_eval. cbn [c_groups c_kind keval map k_inertia_z snd fit_ok fit_ok_g self_centred]. split; [|exact I].
+    unfold gnth. cbn [nth]. unfold self_centred.
+    (* sum_i 2 (p_i . ax) ax = 2 ((sum_i p_i) . ax) ax = 0 for a centred group *)
+    apply v3_ext. intros j. rewrite vget_vsum, map_map, vget_zero.
+    rewrite (tsum_ext _ (fun p => (tw Rops * vget j ax) * v3dot Rops p ax)) by (intros p _; rewrite vget_scale; cbn [nmul Rops]; ring).
+    rewrite tsum_scale'.
+    rewrite (tsum_ext _ (fun p => vget AX p * vget AX ax + vget AY p * vget AY ax + vget AZ p * vget AZ ax)) by (intros p _; apply v3dot_get).
+    rewrite !tsum_plus.
+    rewrite (tsum_ext (fun p : V3 => vget AX p * vget AX ax) (fun p => vget AX ax * vget AX p)) by (intros; ring).
+    rewrite (tsum_ext (fun p : V3 => vget AY p * vget AY ax) (fun p => vget AY ax * vget AY p)) by (intros; ring).
+    rewrite (tsum_ext (fun p : V3 => vget AZ p * vget AZ ax) (fun p => vget AZ ax * vget AZ p)) by (intros; ring).
+    rewrite !tsum_scale'. rewrite <- !vget_vsum. rewrite centred_vsum by exact Hne. rewrite !vget_scale, !vget_zero. ring.
+Qed.
 (* ------------------------------------------------------------------ closed form: guards instead of abstract hypotheses *)
 Definition com_of (s : SYS) (g : GRP) : V3 := gd_com Rops (gdata_of Rops s g).
 
@@ -1172,7 +1593,15 @@ Definition kind_guard (cell : option V3) (c : cvc) (s : SYS) : Prop :=
   | KDistanceXY pbc ax, [gm; gr] =>
     grp_ok s gm /\ grp_ok s gr /\ plain pbc cell /\ v3norm2 Rops ax = 1 /\
     v3norm2 Rops (vperp (v3sub Rops (com_of s gm) (com_of s gr)) ax) <> 0
+  | KDistanceZ2 pbc, [gm; g1; g2] => grp_ok s gm /\ grp_ok s g1 /\ grp_ok s g2 /\ plain pbc cell /\ com_of s g2 <> com_of s g1
+  | KDistanceXY2 pbc, [gm; g1; g2] =>
+    grp_ok s gm /\ grp_ok s g1 /\ grp_ok s g2 /\ plain pbc cell /\ com_of s g2 <> com_of s g1 /\
+    v3norm2 Rops (vperp (v3sub Rops (com_of s gm) (com_of s g1)) (vunit Rops (v3sub Rops (com_of s g2) (com_of s g1)))) <> 0
+  | KAngle pbc, [g1; g2; g3] =>
+    grp_ok s g1 /\ grp_ok s g2 /\ grp_ok s g3 /\ plain pbc cell /\ com_of s g1 <> com_of s g2 /\ com_of s g3 <> com_of s g2 /\
+    -1 < cosang (v3sub Rops (com_of s g1) (com_of s g2)) (v3sub Rops (com_of s g3) (com_of s g2)) < 1
   | KInertia, [GAtoms ids (Some z) None false] => z = vzero Rops /\ ids_ok s ids /\ ids <> []
+  | KInertiaZ ax, [GAtoms ids (Some z) None false] => z = vzero Rops /\ ids_ok s ids /\ ids <> []
   | KGyration, [GAtoms ids (Some z) None false] =>
     z = vzero Rops /\ ids_ok s ids /\ ids <> [] /\ cvc_value Rops PI cell c s <> 0
   | _, _ => False
@@ -1189,14 +1618,23 @@ Proof.
     apply cvc_grad_correct_distance; assumption.
   - destruct groups as [|g1 [|g2 [|g3 r]]]; try contradiction. destruct Hk as (H1 & H2 & Hp).
     apply cvc_grad_correct_distanceZ; assumption.
+  - destruct groups as [|g1 [|g2 [|g3 [|g4 r]]]]; try contradiction. destruct Hk as (H0 & H1 & H2 & Hp & Hn).
+    apply cvc_grad_correct_distanceZ2; assumption.
   - destruct groups as [|g1 [|g2 [|g3 r]]]; try contradiction. destruct Hk as (H1 & H2 & Hp & Ha & Hn).
     apply cvc_grad_correct_distanceXY; assumption.
+  - destruct groups as [|g1 [|g2 [|g3 [|g4 r]]]]; try contradiction. destruct Hk as (H0 & H1 & H2 & Hp & Hn & Hv).
+    apply cvc_grad_correct_distanceXY2; assumption.
   - destruct groups as [|[p|ids c fit fg] [|g2 r]]; try contradiction;
       (destruct c as [z|]; try contradiction; destruct fit; try contradiction; destruct fg; try contradiction).
     destruct Hk as (-> & Hi & Hne & Hv). apply cvc_grad_correct_gyration; assumption.
   - destruct groups as [|[p|ids c fit fg] [|g2 r]]; try contradiction;
       (destruct c as [z|]; try contradiction; destruct fit; try contradiction; destruct fg; try contradiction).
     destruct Hk as (-> & Hi & Hne). apply cvc_grad_correct_inertia; assumption.
+  - destruct groups as [|[p|ids c fit fg] [|g2 r]]; try contradiction;
+      (destruct c as [z|]; try contradiction; destruct fit; try contradiction; destruct fg; try contradiction).
+    destruct Hk as (-> & Hi & Hne). apply cvc_grad_correct_inertiaZ; assumption.
+  - destruct groups as [|g1 [|g2 [|g3 [|g4 r]]]]; try contradiction. destruct Hk as (H1 & H2 & H3 & Hp & Hn1 & Hn3 & Hc).
+    apply cvc_grad_correct_angle; assumption.
 Qed.
 
 Definition bias_guard (b : bias) (ws : list cvar) (x0 : list R) : Prop :=
